@@ -1105,6 +1105,7 @@ where
                     );
                 } else if let Some(TsInterfaceDecl {
                     body: TsInterfaceBody { body, .. },
+                    extends,
                     ..
                 }) = self.interfaces.get(&key)
                 {
@@ -1117,6 +1118,27 @@ where
                             runtime_types.insert(Some(atom!("Object")));
                         }
                     });
+                    // what it inherits counts as well (a callable parent makes it callable)
+                    if let Some(types) = self.resolve_reference(&key, ty.span(), || {
+                        extends
+                            .iter()
+                            .filter_map(|parent| match &*parent.expr {
+                                Expr::Ident(ident) => Some(TsType::TsTypeRef(TsTypeRef {
+                                    type_name: TsEntityName::Ident(ident.clone()),
+                                    type_params: parent.type_args.clone(),
+                                    span: parent.span,
+                                })),
+                                _ => None,
+                            })
+                            .flat_map(|parent| self.infer_runtime_type(&parent))
+                            .collect::<Vec<_>>()
+                    }) {
+                        runtime_types.extend(types);
+                    }
+                    // `interface Empty {}`: any object
+                    if runtime_types.is_empty() {
+                        runtime_types.insert(Some(atom!("Object")));
+                    }
                 } else {
                     match &*ident.sym {
                         "Array" | "Function" | "Object" | "Set" | "Map" | "WeakSet" | "WeakMap"
